@@ -199,9 +199,39 @@ def sec_exttraparea():
         'if max(abs(slew)) > max_slew * (1 + eps):',
         'if max(abs(grad.waveform)) > max_grad + eps:',
     ]
+    need3 += [
+        # convert_to_arbitrary branch and the first/last assignment that follows BOTH branches (function level)
+        'waveform = points_to_waveform(times=times, amplitudes=amplitudes, grad_raster_time=system.grad_raster_time)',
+        'grad = make_arbitrary_grad(channel=channel, waveform=waveform, system=system, max_slew=max_slew, '
+        'max_grad=max_grad, delay=times[0])',
+        '\n    grad.first = amplitudes[0]\n    grad.last = amplitudes[-1]\n    slew = np.diff(grad.waveform) / np.diff(grad.tt)',
+    ]
     for frag in need3:
         if frag not in msrc:
             raise TranslateError('make_extended_trapezoid: expected `%s`' % frag)
+    t4, _ = parse('points_to_waveform.py')
+    psrc = unparse(func(t4, 'points_to_waveform'))
+    for frag in [
+        'grd = np.arange(start=round(np.min(times) / grad_raster_time), stop=round(np.max(times) / grad_raster_time)) '
+        '* grad_raster_time',
+        'waveform = np.interp(x=grd + grad_raster_time / 2, xp=times, fp=amplitudes)',
+    ]:
+        if frag not in psrc:
+            raise TranslateError('points_to_waveform: expected `%s`' % frag)
+    t5, _ = parse('make_arbitrary_grad.py')
+    asrc = unparse(func(t5, 'make_arbitrary_grad'))
+    for frag in [
+        'slew_rate = np.diff(waveform) / system.grad_raster_time',
+        'if max(abs(slew_rate)) > max_slew * (1 + eps):',
+        'if max(abs(waveform)) > max_grad + eps:',
+        'grad.waveform = waveform',
+        'grad.delay = delay',
+        'grad.tt = (np.arange(len(waveform)) + 0.5) * system.grad_raster_time',
+        'grad.shape_dur = len(waveform) * system.grad_raster_time',
+        'grad.area = (waveform * system.grad_raster_time).sum()',
+    ]:
+        if frag not in asrc:
+            raise TranslateError('make_arbitrary_grad: expected `%s`' % frag)
 
     # ---- pypulseq.eps
     t3, _ = parse('__init__.py')
@@ -245,5 +275,7 @@ FP_SOURCES = {
     'eta._find_solution': lambda: strip_doc(_nested(_top(), '_find_solution')),
     'make_extended_trapezoid': lambda: strip_doc(func(parse('make_extended_trapezoid.py')[0], 'make_extended_trapezoid')),
     'cumsum': lambda: strip_doc(func(parse('utils/cumsum.py')[0], 'cumsum')),
+    'points_to_waveform': lambda: strip_doc(func(parse('points_to_waveform.py')[0], 'points_to_waveform')),
+    'make_arbitrary_grad': lambda: strip_doc(func(parse('make_arbitrary_grad.py')[0], 'make_arbitrary_grad')),
 }
 FP_GROUPS = {'FP_exttraparea': list(FP_SOURCES)}
